@@ -7,7 +7,7 @@ HARNESS = "c19"
 # -n is the number of query cases; window and concurrency cases come on top (fixed per tier)
 N_CASES = {"quick": 300, "thorough": 4000}
 N_SEARCH = {"quick": 1, "thorough": 2}
-SHARD = 150
+SHARD = 500
 HAS_MODEL_OUT = True
 RULE = ("(a) real sliding windows (lifetimes 1 s / 1.5 s / 2 s) and real metrics.Stats windows run concurrently, each through "
         "its own generated timed history of Add / Samples / Stats.Get (plus fixed decisive shapes: sample expired while another "
